@@ -493,6 +493,13 @@ class Check:
         cov = dict(self.cov)
         cov.update(self.notes)
         cov["known_findings_reported"] = self.known_hits
+        # keys the evidence schema types: a note of another type under such a name is kept under <name>_detail
+        typed = {"evaluations": int, "distinct_nontrivial": int, "rule": str, "samples": list, "states": int, "transitions": int,
+                 "traces_validated_against_impl": int, "obligations": int, "discharged": int, "checker_cmd": str, "trusted_base": list,
+                 "programs": int, "disagreements_checked": int, "explanation": str, "exhaustive": bool}
+        for k, t in typed.items():
+            if k in cov and not isinstance(cov[k], t) or (k in cov and t is int and isinstance(cov[k], bool)):
+                cov[k + "_detail"] = cov.pop(k)
         if not cov["trusted_base"]:
             cov["trusted_base"] = DEFAULT_TRUSTED_BASE
         ev = {"property_id": self.prop, "tier": self.tier, "seed": self.seed, "level": level,
